@@ -374,10 +374,17 @@ def units(tier, seed):
     out.append(("toy-named", {"names": ["t13", "t23a", "t251a", "t1021a", "t65521b"], "examples": 1500 if q else 30000}))
     for i in range(3):
         out.append(("history", {"curve": ("t13", "t23a", "t13")[i], "examples": 150 if tier == "quick" else 4000, "steps": 40, "label": "h%d" % i}))
+    out.append(("inject", {"level": 'points', "curve": 't23a', "max_points": 400 if tier == "quick" else 8000}))
+    out.append(("inject", {"level": 'points', "curve": 't13', "max_points": 400 if tier == "quick" else 8000}))
+    out.append(("inject", {"level": 'points', "curve": 'NIST192p', "max_points": 40 if tier == "quick" else 800}))
     return out
 
 
 def run_unit(ctx, name, **kw):
+    if name == "inject":
+        from . import inject
+        inject.run(ctx, **kw)
+        return
     if name == "history":
         # histories over live point objects (cached / in-place state, failed operations): the C19 machine
         from . import c19
@@ -403,6 +410,10 @@ def run_unit(ctx, name, **kw):
 
 
 def replay(ctx, case):
+    if case.get("kind") == "inject":
+        from . import inject
+        inject.replay(ctx, case)
+        return
     if case.get("kind") == "history":
         from . import c19
         return c19.replay(ctx, case)
